@@ -422,11 +422,11 @@ T('C05', 'twin-message-reworded', CO,
 M('C07', 'description-includes-hidden', QX,
   "    result_types = tuple(Column(target.name, target.c_expr.dtype)\n                         for target in query.c_targets\n                         if target.name is not None)",
   "    result_types = tuple(Column(target.name, target.c_expr.dtype)\n                         for target in query.c_targets)",
-  ('R-VISFILTER', 'execute_select'))
+  ('R-PIPELINE', 'execute_select'))
 M('C07', 'rows-include-hidden', QX,
   "    result_indexes = [index\n                      for index, c_target in enumerate(query.c_targets)\n                      if c_target.name]",
   "    result_indexes = [index\n                      for index, c_target in enumerate(query.c_targets)]",
-  ('R-VISFILTER', 'execute_select'))
+  ('R-PIPELINE', 'execute_select'))
 M('C07', 'subquery-index-over-all-targets', QC,
   "        for i, target in enumerate(target for target in subquery.c_targets if target.name is not None):\n            column = self.column(i, target.name, target.c_expr.dtype)\n            self.columns[target.name] = column()",
   "        for i, target in enumerate(subquery.c_targets):\n            if target.name is None:\n                continue\n            column = self.column(i, target.name, target.c_expr.dtype)\n            self.columns[target.name] = column()",
@@ -454,6 +454,12 @@ M('C07', 'text-slice-off-by-one', 'beanquery/parser/ast.py',
 M('C07', 'projection-skips-first-visible', QX,
   "    rows = (tuple(row[i] for i in result_indexes) for row in rows)", "    rows = (tuple(row[i] for i in result_indexes[1:]) for row in rows)",
   ('R-PIPELINE', 'execute_select'))
+M('C07', 'query-columns-include-hidden', QC,
+  "        return [t for t in self.c_targets if t.name is not None]", "        return list(self.c_targets)",
+  ('R-VISFILTER', 'EvalQuery.columns'))
+M('C07', 'query-columns-reversed', QC,
+  "        return [t for t in self.c_targets if t.name is not None]", "        return [t for t in reversed(self.c_targets) if t.name is not None]",
+  ('R-VISFILTER', 'EvalQuery.columns'))
 T('C07', 'twin-columns-truthiness-filter', QC,
   "        return [t for t in self.c_targets if t.name is not None]", "        return [t for t in self.c_targets if t.name]")
 
@@ -878,6 +884,31 @@ M('C19', 'print-becomes-legacy-command', SH,
   ('R-DISPATCH', 'onecmd'))
 M('C19', 'numberify-setting-ignored', SH,
   "        if self.settings.numberify:\n            desc, rows = numberify_results(desc, rows, dcontext.build())\n", "", ('R-DISPATCH', 'on_Select'))
+M('C19', 'quiet-suppresses-when-no-errors-only', SH,
+  "        if self.context.errors and not self.no_errors:", "        if self.context.errors or not self.no_errors:", ('R-OPTUSED', 'do_reload'))
+M('C19', 'quiet-inverted', SH,
+  "        if self.context.errors and not self.no_errors:", "        if self.context.errors and self.no_errors:", ('R-OPTUSED', 'do_reload'))
+M('C19', 'quiet-not-kept', SH,
+  "        self.no_errors = no_errors\n", "        self.no_errors = False\n", ('R-OPTUSED', 'BQLShell.__init__'))
+M('C19', 'numberify-option-not-in-settings', SH,
+  "        settings = Settings(format=format, numberify=numberify)", "        settings = Settings(format=format)", ('R-OPTUSED', 'BQLShell.__init__'))
+M('C19', 'outfile-replaced-by-stdout', SH,
+  "        self.outfile = outfile\n", "        self.outfile = sys.stdout\n", ('R-OPTUSED', 'BQLShell.__init__'))
+M('C19', 'command-line-query-dropped', SH,
+  "            query = ' '.join(query)", "            query = ''", ('R-OPTUSED', 'main'))
+M('C19', 'name-parser-ignored', SH,
+  "        parse = getattr(self, f'_parse_{name}', getattr(self, f'_parse_{vtype.__name__}', vtype))",
+  "        parse = getattr(self, f'_parse_{vtype.__name__}', vtype)", ('R-SETTINGS', 'Settings.setstr'))
+# no setting has both a parser of its own and a parser of its type: the two lookup orders coincide on this tree
+T('C19', 'twin-type-parser-before-name-parser', SH,
+  "        parse = getattr(self, f'_parse_{name}', getattr(self, f'_parse_{vtype.__name__}', vtype))",
+  "        parse = getattr(self, f'_parse_{vtype.__name__}', getattr(self, f'_parse_{name}', vtype))")
+M('C19', 'setstr-stores-other-setting', SH,
+  "        setattr(self, name, parse(value))", "        setattr(self, name, parse(value))\n        self.expand = False", ('R-SETTINGS', 'Settings.setstr'))
+M('C19', 'bool-echo-python-spelling', SH,
+  "            return 'true' if value else 'false'", "            return 'True' if value else 'None'", ('R-SETTINGS', 'Settings.getstr'))
+T('C19', 'twin-bool-echo-other-accepted-spelling', SH,
+  "            return 'true' if value else 'false'", "            return 'yes' if value else 'no'")
 T('C19', 'twin-error-message-reworded', SH, "            self.error('invalid number of arguments')", "            self.error('invalid number of arguments')  # usage")
 
 # ---------------------------------------------------------------------- benign refactorings (selftest/benign/*.diff)
